@@ -35,6 +35,8 @@ def h_cloud(ctx, case):
     kw = dict(cloud_safe=True, bootstrap_iteration=3)
     cfg = ST.make_config(inp, work, **kw)
     cfg['query_path'] = q
+    if not ctx.flag('separate_log_file'):
+        cfg['log_path'] = None
     undo = None
     faults = False
     if end == 'missing marker file':
@@ -80,7 +82,7 @@ def h_cloud(ctx, case):
         res = {'raised': e, 'json': None, 'csv': None, 'log': None,
                'h5': None, 'outcome': {}}
         p = cfg['log_path']
-        res['log'] = open(p).read() if os.path.exists(p) else None
+        res['log'] = open(p).read() if p and os.path.exists(p) else None
     finally:
         if undo:
             undo()
